@@ -8,9 +8,15 @@ namespace vs { namespace gen {
 static const char * kNames[] = {"a", "b", "ab", "c"};
 inline std::string Name(Rng & r) {return kNames[r.below(4)];}
 inline std::string RelPath(Rng & r, int maxDepth = 3) {std::string p = Name(r); const int d = (int) r.below((uint32_t) maxDepth); for (int i=0; i<d; i++) p += "/" + Name(r); return p;}
+// clause mode of the run being generated: 0 = the full mix; 1 = literal names and comma lists of literal names only (a session whose subscriptions use no wildcard
+// at some level is served by the traversal's direct-lookup path, which walks all of its entries with shared scratch state)
+static int g_clauseMode = 0;
+struct ClauseModeScope {ClauseModeScope(uint64_t seed) {Rng r(seed, "clausemode"); g_clauseMode = r.oneIn(6) ? 1 : 0;} ~ClauseModeScope() {g_clauseMode = 0;}};
+inline std::string ListClause(Rng & r) {static const char * l[] = {"a,b", "b,c", "ab,c", "a,ab", "c,a,b", "b,ab"}; return l[r.below(6)];}
 inline std::string Clause(Rng & r)
 {
-   switch(r.below(8)) {case 0: return "*"; case 1: return "a*"; case 2: return "?"; case 3: return "(a|c)"; case 4: return "a,b"; case 5: return "[a-b]"; case 6: return "*b"; default: return Name(r);}
+   if (g_clauseMode == 1) return r.oneIn(2) ? ListClause(r) : Name(r);
+   switch(r.below(8)) {case 0: return "*"; case 1: return "a*"; case 2: return "?"; case 3: return "(a|c)"; case 4: return r.oneIn(2) ? std::string("a,b") : ListClause(r); case 5: return "[a-b]"; case 6: return "*b"; default: return Name(r);}
 }
 // a conservative-subset pattern; relative (implicit */*/ prefix) or absolute
 inline std::string Pattern(Rng & r, int hosts)
@@ -86,6 +92,7 @@ using namespace gen;
 
 inline Plan Gen(uint64_t seed)
 {
+   ClauseModeScope clauseMode(seed);
    Rng cfg(seed, "config"), wl(seed, "workload"), fl(seed, "faults");
    Plan p;
    const int clients = 2 + (int) cfg.below(4), hosts = 1 + (int) cfg.below(3);
